@@ -42,8 +42,10 @@ def runModel (c : GCase) (adj : Adj) : Out := Id.run do
   let large := c.sample.isSome
   let watch := c.watch
   let mut o : Out := { model := if large then #[] else #[renderAdj n adj] }
-  let mut uni := Uni.new
-  let mut o2m := O2M.new
+  let (u0, o0, pbad) := preStates c
+  let mut uni := u0
+  let mut o2m := o0
+  if pbad.isSome then o := { o with modelBad := pbad }
   let mut k := 0
   for q in c.queries do
     match q with
